@@ -63,6 +63,10 @@ def check_ref(rep, crate, prop):
         elif semantic_relation(crate, e) == 'eq':
             rep.ok('REF', key, loc(b.raw), 'summary differs textually from the reference but is PROVED equal to it for all well-formed arguments '
                    '(linear entailment over the guarded cases of both): ' + ' | '.join(got_l)[:300], fn=e['path'])
+        elif structural_equal(crate, e):
+            rep.ok('REF', key, loc(b.raw), 'summary differs textually from the reference but its value cases and its assignments are PROVED equal '
+                   'to the reference\'s term by term (piecewise-linear parts case by case; given the assignment\'s condition, in-bounds indices, type '
+                   'invariants): ' + ' | '.join(got_l)[:300], fn=e['path'])
         else:
             d = [l for l in difflib.unified_diff(e['summary'], got_l, 'reference', 'current tree', lineterm='', n=0)
                  if not l.startswith(('---', '+++', '@@'))]
@@ -75,6 +79,77 @@ def check_ref(rep, crate, prop):
                         'reviewed one; renames, re-ordering, let-introduction and helper extraction do not change a summary')
     n += check_inventory(rep, crate, prop)
     return n
+
+
+def struct_ok(st):
+    """the term-level summary can be compared across versions: no loop-carried unknowns (their numbering is not stable)"""
+    bad = ('havoc', 'elemhavoc', 'item', 'loopval', 'index_of', 'clo', 'cp', 'patbind', 'free', 'opaque')
+    def scan(x):
+        if isinstance(x, (tuple, list)):
+            if isinstance(x, tuple) and x and x[0] in bad:
+                return False
+            return all(scan(y) for y in x)
+        return True
+    return scan(st['cases']) and scan(st['effects']) and scan(st['facts'])
+
+
+def structural_equal(crate, e):
+    """REF fall-back for loop-free functions with effects or non-linear values: the value cases pair up as equal terms, the
+    assignments are to the same places, in the same order, under equal conditions, of values that are equal wherever the
+    assignment happens (given its condition, that indices evaluated before it were in bounds, the type invariants and
+    divisors >= 1); every other effect line is textually the same.  Equality of terms: sa/linarith.terms_equal."""
+    if 'struct' not in e:
+        return False
+    import ast
+    from . import linarith, sites as SI
+    try:
+        ref = ast.literal_eval(e['struct'])
+    except (ValueError, SyntaxError):
+        return False
+    b = crate.body(e['path'])
+    _, ev = S.summarise(crate, b)
+    cur = getattr(ev, 'struct', None)
+    if cur is None or not struct_ok(cur):
+        return False
+    if ref.get('other_effects') != cur.get('other_effects') or len(ref['effects']) != len(cur['effects']) or len(ref['cases']) != len(cur['cases']):
+        return False
+
+    def assumptions(cond, facts, terms):
+        out = []
+        cs = linarith._conds(cond) if cond != T.TRUE else [[]]
+        if cs is not None and len(cs) == 1:
+            out += cs[0]
+        for fc, f in facts:
+            # the index was evaluated on every path to this effect (its condition is part of the effect's)
+            if fc == T.TRUE or fc == cond:
+                d = linarith._conds(f)
+                if d is not None and len(d) == 1:
+                    out += d[0]
+        for f in SI.type_invariant_facts(list(terms) + [x for x in out]):
+            d = linarith._conds(f)
+            if d is not None and len(d) == 1:
+                out += d[0]
+        for t in terms:
+            for x in T.subterms(t):
+                if isinstance(x, tuple) and x and x[0] in ('div', 'rem'):
+                    out.append(T.sub(T.const(1), T.as_lin(x[2])))
+        return out
+    try:
+        left = list(cur['cases'])
+        for rc, rv in ref['cases']:
+            hit = next((i for i, (cc, cv) in enumerate(left) if linarith.terms_equal(rc, cc) and
+                        linarith.terms_equal(rv, cv, assumptions(rc, [], [rv, cv]))), None)
+            if hit is None:
+                return False
+            left.pop(hit)
+        for (rk, rt, rv, rc), (ck, ct, cv, cc) in zip(ref['effects'], cur['effects']):
+            if (rk, rt) != (ck, ct) or not linarith.terms_equal(rc, cc):
+                return False
+            if not linarith.terms_equal(rv, cv, assumptions(rc, ref['facts'] + cur['facts'], [rv, cv])):
+                return False
+        return True
+    except RecursionError:
+        return False
 
 
 _REL_CACHE = {}
